@@ -139,7 +139,7 @@ CHECKS = [
           " Also: race-detector schedules PongCut and SubCut; skeletons of sendRequest, nextWriter, lazyWriter and setupPings. Fourth round: raw params that are not JSON must not put an empty message on the wire (F27).",
   "design_ref": "DESIGN.md §6 C14",
   "note": TB + " PARTIAL for the second clause: unsynchronised reads are covered by the regenerated use table and the race detector (dynamic), not by a memory-model proof.",
-  "technique": "Lean 4 theorems (wire invariant by induction over lock events) + regenerated facts + hook-trace inclusion + wire monitor + race-detector support"},
+  "technique": "Lean 4 theorems + translation theorems over the regenerated MiniGo programs (NextWriter) (wire invariant by induction over lock events) + regenerated facts + hook-trace inclusion + wire monitor + race-detector support"},
  {"property_id": "C07",
   "text": "Theorems over the subscription pipeline model (forwarder, FIFO wire, frame executor, sink, 32-slot buffer, unbounded list, caller "
           "channel; one event per hook site): in every reachable state received ++ inTransit = sent (ordered, duplicate-free, nothing invented); "
@@ -176,7 +176,7 @@ CHECKS = [
           " Also: concurrent calls alternate between two generated functions (ids are per client); interpreted facts for normalizeID and the id counter. Fourth round: calls whose request cannot be written (raw params that are not JSON, F27) and whose result cannot be encoded (F26) must still return.",
   "design_ref": "DESIGN.md §6 C02",
   "note": TB + " Stated bound: ids are distinct below 2^53 calls per client.",
-  "technique": "Lean 4 theorems + translation theorems over the regenerated MiniGo programs (NormalizeID) (invariants by induction over events, grind-assisted) + regenerated skeleton facts + hook-trace inclusion"},
+  "technique": "Lean 4 theorems + translation theorems over the regenerated MiniGo programs (NormalizeID, NextWriter) (invariants by induction over events, grind-assisted) + regenerated skeleton facts + hook-trace inclusion"},
  {"property_id": "C03",
   "text": "Theorems: in every reachable state an id-bearing attempt that was taken and has no answer yet is being handled by the main loop, "
           "or registered in inflight under its own id, or held by the frame executor — there is no other place (ownership); during the "
@@ -252,7 +252,7 @@ CHECKS = [
           "previous connection returns while the same id is pending on the new one), its serving-side trace replayed through op epoch (F18). Fourth round: a reverse subscription after a loss during which the old producer emitted (F20), a shared non-default formatter without aliases (F28), a client without handlers (F35), a large reverse request still queued when its connection ended (F18b).",
   "design_ref": "DESIGN.md §6 C16",
   "note": TB,
-  "technique": "Lean 4 theorems + translation theorems over the regenerated MiniGo programs (Naming) (frame/projection lemma over a product of LTSs, corollaries of the Corr invariants) + regenerated skeleton facts + hook-trace inclusion per endpoint + scenario monitors"},
+  "technique": "Lean 4 theorems + translation theorems over the regenerated MiniGo programs (Naming, NextWriter) (frame/projection lemma over a product of LTSs, corollaries of the Corr invariants) + regenerated skeleton facts + hook-trace inclusion per endpoint + scenario monitors"},
  {"property_id": "C17",
   "text": "Theorems over a timed model of the two detectors of one connection (read deadline, main-loop idle timer) for every timeout T, "
           "activity gap G and local latency E and every interleaving of activity / renewal / re-arm / local traffic / time: if G + E < T then on "
